@@ -140,15 +140,25 @@ impl RSV {
 //@end
 }
 
+pub uninterp spec fn region_of(d: RSVD) -> Option<SubWord>;
+/// the mask region of `a & b`: the left operand's if it has one, else the right operand's
+pub open spec fn mask_region(d: RSVD) -> Option<SubWord> {
+    match d {
+        RSVD::And { left, right } => if region_of(left.dt()) is Some { region_of(left.dt()) } else { region_of(right.dt()) },
+        _ => None,
+    }
+}
+
 //@extract file=src/tc/lift/sub_word.rs path="struct SubWordValue" kind=type
 //@end
 //@extract file=src/tc/lift/sub_word.rs path="impl SubWordValue" kind=header
 //@end
     // A-CALLEE: `get_region` scans the bits of the folded mask with bitvec / itertools iterators
-    // (outside Verus' subset). NO contract: any region at all may come back (the in-slot bound below is
+    // (outside Verus' subset). Assumed: it is a function of its argument (`region_of`, uninterpreted) —
+    // NOTHING about the region it reports: any offset and length may come back (the in-slot bound below is
     // established by `insert_sub_words`' own check, not by an assumption about the mask scan).
     #[verifier::external_body]
-    pub fn get_region(data: &RSVD) -> (r: Option<SubWord>) { unimplemented!() }
+    pub fn get_region(data: &RSVD) -> (r: Option<SubWord>) ensures r == region_of(*data) { unimplemented!() }
 
 //@extract file=src/tc/lift/sub_word.rs path="impl SubWordValue|fn get_shift" props=C01
 //@ret r
@@ -170,6 +180,9 @@ impl RSV {
 //@spec
     ensures
         r matches Some(RSVD::SubWord { offset, size, .. }) ==> offset + size <= 256,             //@ob C12.arith.sub_word.region_inside_slot
+        // the width is the mask's, and the shift moved the region UP without wrapping around (a wrapped
+        // `offset + shift` is smaller than `offset`)
+        r matches Some(RSVD::SubWord { offset, size, .. }) ==> mask_region(*data) matches Some(w) && size == w.length && offset >= w.offset,   //@ob C12.arith.sub_word.mask_width_kept_offset_not_wrapped
         r matches Some(d2) ==> d2 is SubWord,                                                     //@ob C12.arith.sub_word.creates_only_sub_word
         r is Some ==> *data is And,                                                               //@ob C12.arith.sub_word.only_on_mask_operation
 //@end
